@@ -181,6 +181,7 @@ class Expansion(Harness):
 
 
 class RandomValues(Harness):
+    cvc5_recheck = True      # thorough tier: obligations re-discharged with cvc5
     name = "RandomValues"
     title = "real JsonRandom.random with the generator's draws as solver variables"
     what_symbolic = "the uniform draw u in [0,1), the gaussian draw g (any real); bounds a<b, lambda>0 from concrete sets"
